@@ -2296,15 +2296,15 @@ fn arb_portable() -> impl Strategy<Value = bool> {
     prop::bool::weighted(0.1)
 }
 
-fn arb_grammar() -> impl Strategy<Value = TextCase> {
+pub fn arb_grammar() -> impl Strategy<Value = TextCase> {
     (arb_choices(260), arb_portable()).prop_map(|(d, portable)| TextCase { text: gen_program(&d), portable })
 }
 
-fn arb_deep() -> impl Strategy<Value = TextCase> {
+pub fn arb_deep() -> impl Strategy<Value = TextCase> {
     (arb_choices(80), arb_portable()).prop_map(|(d, portable)| TextCase { text: gen_deep(&d), portable })
 }
 
-fn arb_mutant() -> impl Strategy<Value = TextCase> {
+pub fn arb_mutant() -> impl Strategy<Value = TextCase> {
     let base = prop_oneof![
         3 => arb_choices(200).prop_map(|d| gen_program(&d)),
         2 => any::<u16>().prop_map(|i| {
@@ -2318,7 +2318,7 @@ fn arb_mutant() -> impl Strategy<Value = TextCase> {
         .prop_map(|(b, ops, portable)| TextCase { text: mutate(&b, &ops), portable })
 }
 
-fn arb_soup() -> impl Strategy<Value = TextCase> {
+pub fn arb_soup() -> impl Strategy<Value = TextCase> {
     let unicode = prop::collection::vec(
         prop_oneof![
             3 => any::<char>(),
